@@ -26,8 +26,8 @@ func rePrefix(r *vrng, choices ...string) (pattern, tok string) {
 func genWinbox(r *vrng, ctx caddy.Context) mcase {
 	ulen := r.pick(1, 1, 2, 3, 5, 8, 30, 219, 220, 221, 222, 223, 240, 253, 255)
 	user := make([]byte, ulen)
-	alnum := "abcXYZ019"
-	mid := "abcXYZ019-#.@_"
+	alnum := "abrXYZ019"
+	mid := "abrXYZ019-#.@_"
 	for i := range user {
 		if i == 0 || i == ulen-1 {
 			user[i] = alnum[r.intn(len(alnum))]
@@ -37,6 +37,10 @@ func genWinbox(r *vrng, ctx caddy.Context) mcase {
 	}
 	if r.intn(8) == 0 && ulen > 0 {
 		user[r.intn(ulen)] = byte(r.pick(' ', '+', 0, 0xff, '/'))
+	}
+	if r.intn(6) == 0 {
+		// names around the RoMON suffix "+r": made of 'r' only, or ending in 'r' after a separator
+		user = []byte([]string{"r", "rrr", "admin.r", "a-rr", "operator", "router"}[r.intn(6)])
 	}
 	us := string(user)
 	if r.intn(3) == 0 {
